@@ -1,12 +1,18 @@
 /- Invariants, progress and termination measure of the NATS server shutdown model (FV.Model.NatsServer). -/
 import FV.Model.NatsServer
+set_option linter.unusedSimpArgs false
 namespace FV.NS
 
 def wkMsgs : Wk → List Msg
   | .busy m | .locking m | .writing m | .overflow m | .written m | .publishing m => [m]
   | .idle | .exited => []
-def busyList : List Wk → List Msg | [] => [] | w :: ws => wkMsgs w ++ busyList ws
 def cbMsgs : Cb → List Msg | .sending m => [m] | _ => []
+/-- Everything a subscription holds: in flight at the broker, pending in nats.go, with its handler. -/
+def subAll (sb : Sub) : List Msg := sb.inflight ++ sb.pending ++ cbMsgs sb.cb
+def subCb (sb : Sub) : List Msg := cbMsgs sb.cb
+/-- Concatenation of what each element holds. -/
+def flat {α : Type} (f : α → List Msg) : List α → List Msg | [] => [] | x :: xs => f x ++ flat f xs
+def busyList (ws : List Wk) : List Msg := flat wkMsgs ws
 /-- The states in which a worker holds the processor's write mutex. -/
 def holds : Wk → Bool
   | .writing _ | .overflow _ | .written _ => true
@@ -15,24 +21,35 @@ def rank : ServePc → Nat
   | .running => 0 | .gotQuit => 1 | .unsubbed => 2 | .barrierWait => 3
   | .barrierDone => 4 | .resultSent => 5 | .closedQ => 6 | .returned => 7
 
-/-- Where a request the server took over can be: with the handler, in the queue, with a worker, answered. -/
-def held (s : Sys) : List Msg := cbMsgs s.cb ++ s.workC ++ busyList s.workers ++ s.replied
+/-- Where a request the server took over can be: with a handler, in the queue, with a worker, answered. -/
+def held (s : Sys) : List Msg := flat subCb s.subs ++ s.workC ++ busyList s.workers ++ s.replied
 /-- Where an accepted request can be. -/
-def loc (s : Sys) : List Msg := s.inflight ++ s.pending ++ held s ++ s.dropped
+def loc (s : Sys) : List Msg := flat subAll s.subs ++ s.workC ++ busyList s.workers ++ s.replied ++ s.dropped
 
-theorem count_busy_set (m : Msg) (ws : List Wk) (i : Nat) (u v : Wk) (h : ws[i]? = some u) :
-    (busyList (ws.set i v)).count m + (wkMsgs u).count m = (busyList ws).count m + (wkMsgs v).count m := by
-  induction ws generalizing i with
+theorem count_flat_set {α : Type} (f : α → List Msg) (m : Msg) (l : List α) (i : Nat) (u v : α) (h : l[i]? = some u) :
+    (flat f (l.set i v)).count m + (f u).count m = (flat f l).count m + (f v).count m := by
+  induction l generalizing i with
   | nil => simp at h
   | cons w ws ih =>
     cases i with
     | zero =>
       simp at h; subst h
-      simp [busyList, List.count_append]; omega
+      simp [flat, List.count_append]; omega
     | succ i =>
       simp at h
       have := ih i h
-      simp [busyList, List.count_append]; omega
+      simp [flat, List.count_append]; omega
+
+theorem count_busy_set (m : Msg) (ws : List Wk) (i : Nat) (u v : Wk) (h : ws[i]? = some u) :
+    (busyList (ws.set i v)).count m + (wkMsgs u).count m = (busyList ws).count m + (wkMsgs v).count m :=
+  count_flat_set wkMsgs m ws i u v h
+
+theorem forall_set {α : Type} {P : α → Prop} {l : List α} (i : Nat) (v : α) (h : ∀ x ∈ l, P x) (hv : P v) :
+    ∀ x ∈ l.set i v, P x := by
+  intro x hx
+  rcases List.mem_or_eq_of_mem_set hx with h1 | h1
+  · exact h x h1
+  · rw [h1]; exact hv
 
 theorem mem_set_exited (ws : List Wk) (i : Nat) (v : Wk) (h : Wk.exited ∈ ws.set i v) : Wk.exited ∈ ws ∨ v = .exited := by
   rcases List.mem_or_eq_of_mem_set h with h | h
@@ -42,7 +59,7 @@ theorem mem_set_exited (ws : List Wk) (i : Nat) (v : Wk) (h : Wk.exited ∈ ws.s
 theorem all_exited_get {ws : List Wk} {i : Nat} {u : Wk} (h : ∀ w ∈ ws, w = .exited) (hg : ws[i]? = some u) : u = .exited :=
   h u (List.mem_of_getElem? hg)
 
-theorem get_set (ws : List Wk) (i j : Nat) (u v : Wk) (h : ws[i]? = some u) :
+theorem get_set {α : Type} (ws : List α) (i j : Nat) (u v : α) (h : ws[i]? = some u) :
     (ws.set i v)[j]? = if i = j then some v else ws[j]? := by
   rw [List.getElem?_set]
   by_cases e : i = j
@@ -58,15 +75,16 @@ theorem get_set (ws : List Wk) (i j : Nat) (u v : Wk) (h : ws[i]? = some u) :
 
 structure SInv (s : Sys) : Prop where
   gd : s.guarded = true
+  lo : s.lastOnly = false
   cnt : ∀ m, (loc s).count m = s.arrived.count m
   hcnt : ∀ m, s.handed.count m = (held s).count m
   nodup : ∀ m, s.arrived.count m ≤ 1
   proc : ∀ m, s.processed.count m = (busyList s.workers).count m + s.replied.count m
   clo : s.closed = true ↔ 5 < rank s.serve
-  cidle : s.closed = true → s.cb = .idle
+  cidle : s.closed = true → ∀ sb ∈ s.subs, sb.cb = .idle
   act : s.faulty = false → (s.active = true ↔ rank s.serve < 2)
-  infl : s.faulty = false → 2 < rank s.serve → s.inflight = []
-  pend : s.faulty = false → 3 < rank s.serve → s.pending = [] ∧ s.cb = .idle
+  infl : s.faulty = false → 2 < rank s.serve → ∀ sb ∈ s.subs, sb.inflight = []
+  pend : s.faulty = false → 3 < rank s.serve → ∀ sb ∈ s.subs, sb.pending = [] ∧ sb.cb = .idle
   drp : s.faulty = false → s.dropped = []
   ret : s.serve = .returned → ∀ w ∈ s.workers, w = .exited
   ex : .exited ∈ s.workers → s.closed = true ∧ s.workC = []
@@ -80,140 +98,202 @@ structure SInv (s : Sys) : Prop where
 
 syntax "cnt_tac" : tactic
 macro_rules
-  | `(tactic| cnt_tac) => `(tactic| (simp only [loc, held, cbMsgs, wkMsgs, busyList, List.count_append, List.count_cons, List.count_nil] at * <;> omega))
+  | `(tactic| cnt_tac) => `(tactic| (simp only [loc, held, subAll, subCb, cbMsgs, wkMsgs, busyList, flat, List.count_append, List.count_cons, List.count_nil] at * <;> omega))
 
-theorem sinv_arrive (s s' : Sys) (m : Msg) (hi : SInv s) (hs : step s (.arrive m) = some s') : SInv s' := by
-  obtain ⟨gd, cnt, hcnt, nodup, proc, clo, cidle, act, infl, pend, drp, ret, ex, pan, bar, st0, st1, st2, mu1, mu2⟩ := hi
+theorem sinv_arrive (s s' : Sys) (j : Nat) (m : Msg) (hi : SInv s) (hs : step s (.arrive j m) = some s') : SInv s' := by
+  obtain ⟨gd, lo, cnt, hcnt, nodup, proc, clo, cidle, act, infl, pend, drp, ret, ex, pan, bar, st0, st1, st2, mu1, mu2⟩ := hi
   simp only [step] at hs
   split at hs
-  · rename_i h
-    cases hs
-    refine ⟨gd, ?_, hcnt, ?_, proc, clo, cidle, act, ?_, pend, drp, ret, ex, pan, bar, st0, st1, st2, mu1, mu2⟩
-    · intro x
-      have := cnt x
-      cnt_tac
-    · intro x
-      have := nodup x
-      have h0 : s.arrived.count m = 0 := List.count_eq_zero.mpr h.2
-      by_cases hx : m = x
-      · subst hx; simp only [List.count_append, List.count_cons, List.count_nil] at *; simp; omega
-      · simp only [List.count_append, List.count_cons, List.count_nil] at *; simp [hx]; omega
-    · intro hf h2
-      have := (act hf).mp h.1
-      simp at h2 ⊢; omega
-  · cases hs
-
-theorem sinv_fault (s s' : Sys) (hi : SInv s) (hs : step s .fault = some s') : SInv s' := by
-  obtain ⟨gd, cnt, hcnt, nodup, proc, clo, cidle, act, infl, pend, drp, ret, ex, pan, bar, st0, st1, st2, mu1, mu2⟩ := hi
-  simp only [step] at hs
-  split at hs
-  · cases hs
-  · cases hs
-    refine ⟨gd, cnt, hcnt, nodup, proc, clo, cidle, ?_, ?_, ?_, ?_, ret, ex, pan, bar, st0, st1, st2, mu1, mu2⟩ <;>
-      (intro h; cases h)
-
-theorem sinv_deliver (s s' : Sys) (hi : SInv s) (hs : step s .deliver = some s') : SInv s' := by
-  obtain ⟨gd, cnt, hcnt, nodup, proc, clo, cidle, act, infl, pend, drp, ret, ex, pan, bar, st0, st1, st2, mu1, mu2⟩ := hi
-  simp only [step] at hs
-  split at hs
-  · rename_i m rest hm
-    cases hs
-    refine ⟨gd, ?_, hcnt, nodup, proc, clo, cidle, act, ?_, ?_, drp, ret, ex, pan, bar, st0, st1, st2, mu1, mu2⟩
-    · intro x
-      have := cnt x
-      rw [loc, hm] at this
-      cnt_tac
-    · intro hf h2; have := infl hf h2; simp [hm] at this
-    · intro hf h2; dsimp only at h2; have := infl hf (by omega); simp [hm] at this
-  · cases hs
-
-theorem sinv_cbStart (s s' : Sys) (hi : SInv s) (hs : step s .cbStart = some s') : SInv s' := by
-  obtain ⟨gd, cnt, hcnt, nodup, proc, clo, cidle, act, infl, pend, drp, ret, ex, pan, bar, st0, st1, st2, mu1, mu2⟩ := hi
-  simp only [step] at hs
-  split at hs
-  · rename_i m rest hcb hm
+  · rename_i sb hsb
+    have hmem := List.mem_of_getElem? hsb
     split at hs
-    · rename_i hc
+    · rename_i h
       cases hs
-      have hnf : s.faulty = true := by
-        cases hf : s.faulty with
-        | true => rfl
-        | false =>
-          have := (pend hf (by have := clo.mp hc.2; omega)).1
-          simp [hm] at this
-      refine ⟨gd, ?_, hcnt, nodup, proc, clo, cidle, act, infl, ?_, ?_, ret, ex, pan, bar, st0, st1, st2, mu1, mu2⟩
+      have hf := fun x => count_flat_set subAll x s.subs j sb { sb with inflight := sb.inflight ++ [m] } hsb
+      have hg := fun x => count_flat_set subCb x s.subs j sb { sb with inflight := sb.inflight ++ [m] } hsb
+      refine ⟨gd, lo, ?_, ?_, ?_, proc, clo, ?_, act, ?_, ?_, drp, ret, ex, pan, bar, st0, st1, st2, mu1, mu2⟩
       · intro x
         have := cnt x
-        rw [loc, hm] at this
-        cnt_tac
-      · intro hf; rw [hnf] at hf; cases hf
-      · intro hf; rw [hnf] at hf; cases hf
-    · rename_i hc
-      cases hs
-      have hncl : s.closed = false := by
-        cases hcl : s.closed with
-        | false => rfl
-        | true => exact absurd ⟨gd, hcl⟩ hc
-      refine ⟨gd, ?_, ?_, nodup, proc, clo, ?_, act, infl, ?_, drp, ret, ex, pan, bar, st0, st1, st2, mu1, mu2⟩
-      · intro x
-        have := cnt x
-        rw [loc, held, hm, hcb] at this
+        have := hf x
         cnt_tac
       · intro x
         have := hcnt x
-        rw [held, hcb] at this
+        have := hg x
         cnt_tac
-      · intro h; rw [hncl] at h; cases h
-      · intro hf h2; dsimp only at h2; have := (pend hf h2).1; simp [hm] at this
+      · intro x
+        have := nodup x
+        have h0 : s.arrived.count m = 0 := List.count_eq_zero.mpr h.2
+        by_cases hx : m = x
+        · subst hx; simp only [List.count_append, List.count_cons, List.count_nil] at *; simp; omega
+        · simp only [List.count_append, List.count_cons, List.count_nil] at *; simp [hx]; omega
+      · intro hc; exact forall_set j _ (cidle hc) (cidle hc sb hmem)
+      · intro hf' h2
+        have := (act hf').mp h.1
+        simp at h2 ⊢; omega
+      · intro hf' h2
+        exact forall_set j _ (pend hf' h2) (pend hf' h2 sb hmem)
+    · cases hs
   · cases hs
 
-theorem sinv_handlerEnqueue (s s' : Sys) (hi : SInv s) (hs : step s .handlerEnqueue = some s') : SInv s' := by
-  obtain ⟨gd, cnt, hcnt, nodup, proc, clo, cidle, act, infl, pend, drp, ret, ex, pan, bar, st0, st1, st2, mu1, mu2⟩ := hi
+theorem sinv_fault (s s' : Sys) (hi : SInv s) (hs : step s .fault = some s') : SInv s' := by
+  obtain ⟨gd, lo, cnt, hcnt, nodup, proc, clo, cidle, act, infl, pend, drp, ret, ex, pan, bar, st0, st1, st2, mu1, mu2⟩ := hi
   simp only [step] at hs
   split at hs
-  · rename_i m hcb
-    have hncl : s.closed = false := by
-      cases hcl : s.closed with
-      | false => rfl
-      | true => have := cidle hcl; rw [hcb] at this; cases this
+  · cases hs
+  · cases hs
+    refine ⟨gd, lo, cnt, hcnt, nodup, proc, clo, cidle, ?_, ?_, ?_, ?_, ret, ex, pan, bar, st0, st1, st2, mu1, mu2⟩ <;>
+      (intro h; cases h)
+
+theorem sinv_deliver (s s' : Sys) (j : Nat) (hi : SInv s) (hs : step s (.deliver j) = some s') : SInv s' := by
+  obtain ⟨gd, lo, cnt, hcnt, nodup, proc, clo, cidle, act, infl, pend, drp, ret, ex, pan, bar, st0, st1, st2, mu1, mu2⟩ := hi
+  simp only [step] at hs
+  split at hs
+  · rename_i sb hsb
+    have hmem := List.mem_of_getElem? hsb
     split at hs
-    · rename_i hc; rw [hncl] at hc; cases hc
-    · split at hs
-      · cases hs
-        refine ⟨gd, ?_, ?_, nodup, proc, clo, ?_, act, infl, ?_, drp, ret, ?_, pan, bar, st0, st1, st2, mu1, mu2⟩
+    · rename_i m rest hm
+      cases hs
+      have hf := fun x => count_flat_set subAll x s.subs j sb { sb with inflight := rest, pending := sb.pending ++ [m] } hsb
+      have hg := fun x => count_flat_set subCb x s.subs j sb { sb with inflight := rest, pending := sb.pending ++ [m] } hsb
+      refine ⟨gd, lo, ?_, ?_, nodup, proc, clo, ?_, act, ?_, ?_, drp, ret, ex, pan, bar, st0, st1, st2, mu1, mu2⟩
+      · intro x
+        have := cnt x
+        have := hf x
+        rw [subAll, hm] at this
+        cnt_tac
+      · intro x
+        have := hcnt x
+        have := hg x
+        cnt_tac
+      · intro hc; exact forall_set j _ (cidle hc) (cidle hc sb hmem)
+      · intro hf' h2; have := infl hf' h2 sb hmem; simp [hm] at this
+      · intro hf' h2; dsimp only at h2; have := infl hf' (by omega) sb hmem; simp [hm] at this
+    · cases hs
+  · cases hs
+
+theorem sinv_cbStart (s s' : Sys) (j : Nat) (hi : SInv s) (hs : step s (.cbStart j) = some s') : SInv s' := by
+  obtain ⟨gd, lo, cnt, hcnt, nodup, proc, clo, cidle, act, infl, pend, drp, ret, ex, pan, bar, st0, st1, st2, mu1, mu2⟩ := hi
+  simp only [step] at hs
+  split at hs
+  · rename_i sb hsb
+    have hmem := List.mem_of_getElem? hsb
+    split at hs
+    · rename_i m rest hcb hm
+      split at hs
+      · rename_i hc
+        cases hs
+        have hnf : s.faulty = true := by
+          cases hf : s.faulty with
+          | true => rfl
+          | false =>
+            have := (pend hf (by have := clo.mp hc.2; omega) sb hmem).1
+            simp [hm] at this
+        have hf := fun x => count_flat_set subAll x s.subs j sb { sb with pending := rest } hsb
+        have hg := fun x => count_flat_set subCb x s.subs j sb { sb with pending := rest } hsb
+        refine ⟨gd, lo, ?_, ?_, nodup, proc, clo, ?_, act, ?_, ?_, ?_, ret, ex, pan, bar, st0, st1, st2, mu1, mu2⟩
         · intro x
           have := cnt x
-          rw [loc, held, hcb] at this
+          have := hf x
+          rw [subAll, hm] at this
           cnt_tac
         · intro x
           have := hcnt x
-          rw [held, hcb] at this
+          have := hg x
+          cnt_tac
+        · intro hc'; exact forall_set j _ (cidle hc') (cidle hc' sb hmem)
+        · intro hf'; rw [hnf] at hf'; cases hf'
+        · intro hf'; rw [hnf] at hf'; cases hf'
+        · intro hf'; rw [hnf] at hf'; cases hf'
+      · rename_i hc
+        cases hs
+        have hncl : s.closed = false := by
+          cases hcl : s.closed with
+          | false => rfl
+          | true => exact absurd ⟨gd, hcl⟩ hc
+        have hf := fun x => count_flat_set subAll x s.subs j sb { sb with cb := .sending m, pending := rest } hsb
+        have hg := fun x => count_flat_set subCb x s.subs j sb { sb with cb := .sending m, pending := rest } hsb
+        refine ⟨gd, lo, ?_, ?_, nodup, proc, clo, ?_, act, ?_, ?_, drp, ret, ex, pan, bar, st0, st1, st2, mu1, mu2⟩
+        · intro x
+          have := cnt x
+          have := hf x
+          rw [subAll, hm, hcb] at this
+          cnt_tac
+        · intro x
+          have := hcnt x
+          have := hg x
+          rw [subCb, hcb] at this
           cnt_tac
         · intro h; rw [hncl] at h; cases h
-        · intro hf h2; have := (pend hf h2).2; rw [hcb] at this; cases this
-        · intro h2; dsimp only at h2 ⊢
-          have := (ex h2).1
-          rw [hncl] at this; cases this
-      · cases hs
+        · intro hf' h2; exact forall_set j _ (infl hf' h2) (infl hf' h2 sb hmem)
+        · intro hf' h2; have := (pend hf' h2 sb hmem).1; simp [hm] at this
+    · cases hs
   · cases hs
 
-theorem sinv_callbackDone (s s' : Sys) (hi : SInv s) (hs : step s .callbackDone = some s') : SInv s' := by
-  obtain ⟨gd, cnt, hcnt, nodup, proc, clo, cidle, act, infl, pend, drp, ret, ex, pan, bar, st0, st1, st2, mu1, mu2⟩ := hi
+theorem sinv_handlerEnqueue (s s' : Sys) (j : Nat) (hi : SInv s) (hs : step s (.handlerEnqueue j) = some s') : SInv s' := by
+  obtain ⟨gd, lo, cnt, hcnt, nodup, proc, clo, cidle, act, infl, pend, drp, ret, ex, pan, bar, st0, st1, st2, mu1, mu2⟩ := hi
   simp only [step] at hs
   split at hs
-  · rename_i m hcb
-    cases hs
-    refine ⟨gd, ?_, ?_, nodup, proc, clo, ?_, act, infl, ?_, drp, ret, ex, pan, bar, st0, st1, st2, mu1, mu2⟩
-    · intro x
-      have := cnt x
-      rw [loc, held, hcb] at this
-      cnt_tac
-    · intro x
-      have := hcnt x
-      rw [held, hcb] at this
-      cnt_tac
-    · intro _; rfl
-    · intro hf h2; exact ⟨(pend hf h2).1, rfl⟩
+  · rename_i sb hsb
+    have hmem := List.mem_of_getElem? hsb
+    split at hs
+    · rename_i m hcb
+      have hncl : s.closed = false := by
+        cases hcl : s.closed with
+        | false => rfl
+        | true => have := cidle hcl sb hmem; rw [hcb] at this; cases this
+      split at hs
+      · rename_i hc; rw [hncl] at hc; cases hc
+      · split at hs
+        · cases hs
+          have hf := fun x => count_flat_set subAll x s.subs j sb { sb with cb := .sent m } hsb
+          have hg := fun x => count_flat_set subCb x s.subs j sb { sb with cb := .sent m } hsb
+          refine ⟨gd, lo, ?_, ?_, nodup, proc, clo, ?_, act, ?_, ?_, drp, ret, ?_, pan, bar, st0, st1, st2, mu1, mu2⟩
+          · intro x
+            have := cnt x
+            have := hf x
+            rw [subAll, hcb] at this
+            cnt_tac
+          · intro x
+            have := hcnt x
+            have := hg x
+            rw [subCb, hcb] at this
+            cnt_tac
+          · intro h; rw [hncl] at h; cases h
+          · intro hf' h2; exact forall_set j _ (infl hf' h2) (infl hf' h2 sb hmem)
+          · intro hf' h2; have := (pend hf' h2 sb hmem).2; rw [hcb] at this; cases this
+          · intro h2; dsimp only at h2 ⊢
+            have := (ex h2).1
+            rw [hncl] at this; cases this
+        · cases hs
+    · cases hs
+  · cases hs
+
+theorem sinv_callbackDone (s s' : Sys) (j : Nat) (hi : SInv s) (hs : step s (.callbackDone j) = some s') : SInv s' := by
+  obtain ⟨gd, lo, cnt, hcnt, nodup, proc, clo, cidle, act, infl, pend, drp, ret, ex, pan, bar, st0, st1, st2, mu1, mu2⟩ := hi
+  simp only [step] at hs
+  split at hs
+  · rename_i sb hsb
+    have hmem := List.mem_of_getElem? hsb
+    split at hs
+    · rename_i m hcb
+      cases hs
+      have hf := fun x => count_flat_set subAll x s.subs j sb { sb with cb := .idle } hsb
+      have hg := fun x => count_flat_set subCb x s.subs j sb { sb with cb := .idle } hsb
+      refine ⟨gd, lo, ?_, ?_, nodup, proc, clo, ?_, act, ?_, ?_, drp, ret, ex, pan, bar, st0, st1, st2, mu1, mu2⟩
+      · intro x
+        have := cnt x
+        have := hf x
+        rw [subAll, hcb] at this
+        cnt_tac
+      · intro x
+        have := hcnt x
+        have := hg x
+        rw [subCb, hcb] at this
+        cnt_tac
+      · intro hc; exact forall_set j _ (cidle hc) rfl
+      · intro hf' h2; exact forall_set j _ (infl hf' h2) (infl hf' h2 sb hmem)
+      · intro hf' h2; exact forall_set j _ (pend hf' h2) ⟨(pend hf' h2 sb hmem).1, rfl⟩
+    · cases hs
   · cases hs
 
 
@@ -240,12 +320,12 @@ theorem mu_set_same (ws : List Wk) (wmu : Option Nat) (i : Nat) (u v : Wk) (hw :
 theorem sinv_wk_pure (s : Sys) (i : Nat) (u v : Wk) (hi : SInv s) (hw : s.workers[i]? = some u)
     (hm : wkMsgs v = wkMsgs u) (hh : holds v = holds u) (hv : v ≠ .exited) (hu : u ≠ .exited) :
     SInv { s with workers := s.workers.set i v } := by
-  obtain ⟨gd, cnt, hcnt, nodup, proc, clo, cidle, act, infl, pend, drp, ret, ex, pan, bar, st0, st1, st2, mu1, mu2⟩ := hi
+  obtain ⟨gd, lo, cnt, hcnt, nodup, proc, clo, cidle, act, infl, pend, drp, ret, ex, pan, bar, st0, st1, st2, mu1, mu2⟩ := hi
   have hnr : s.serve ≠ .returned := by
     intro h; exact hu (all_exited_get (ret h) hw)
   have hb := fun x => count_busy_set x s.workers i u v hw
   have hmu := mu_set_same s.workers s.wmu i u v hw hh mu1 mu2
-  refine ⟨gd, ?_, ?_, nodup, ?_, clo, cidle, act, infl, pend, drp, ?_, ?_, pan, bar, st0, st1, st2, hmu.1, hmu.2⟩
+  refine ⟨gd, lo, ?_, ?_, nodup, ?_, clo, cidle, act, infl, pend, drp, ?_, ?_, pan, bar, st0, st1, st2, hmu.1, hmu.2⟩
   · intro x
     have := cnt x
     have := hb x
@@ -268,7 +348,7 @@ theorem sinv_wk_pure (s : Sys) (i : Nat) (u v : Wk) (hi : SInv s) (hw : s.worker
     · exact absurd h3 hv
 
 theorem sinv_workerTake (s s' : Sys) (i : Nat) (hi : SInv s) (hs : step s (.workerTake i) = some s') : SInv s' := by
-  obtain ⟨gd, cnt, hcnt, nodup, proc, clo, cidle, act, infl, pend, drp, ret, ex, pan, bar, st0, st1, st2, mu1, mu2⟩ := hi
+  obtain ⟨gd, lo, cnt, hcnt, nodup, proc, clo, cidle, act, infl, pend, drp, ret, ex, pan, bar, st0, st1, st2, mu1, mu2⟩ := hi
   simp only [step] at hs
   split at hs
   · rename_i hw
@@ -279,11 +359,11 @@ theorem sinv_workerTake (s s' : Sys) (i : Nat) (hi : SInv s) (hs : step s (.work
       cases hs
       have hb := fun x => count_busy_set x s.workers i .idle (.busy m) hw
       have hmu := mu_set_same s.workers s.wmu i .idle (.busy m) hw rfl mu1 mu2
-      refine ⟨gd, ?_, ?_, nodup, ?_, clo, cidle, act, infl, pend, drp, ?_, ?_, pan, bar, st0, st1, st2, hmu.1, hmu.2⟩
+      refine ⟨gd, lo, ?_, ?_, nodup, ?_, clo, cidle, act, infl, pend, drp, ?_, ?_, pan, bar, st0, st1, st2, hmu.1, hmu.2⟩
       · intro x
         have := cnt x
         have := hb x
-        rw [loc, held, hq] at *
+        rw [loc, hq] at *
         cnt_tac
       · intro x
         have := hcnt x
@@ -299,42 +379,62 @@ theorem sinv_workerTake (s s' : Sys) (i : Nat) (hi : SInv s) (hs : step s (.work
         rcases mem_set_exited _ _ _ h2 with h3 | h3
         · have := (ex h3).2; simp [hq] at this
         · cases h3
-    · rename_i hq
+    · cases hs
+  · cases hs
+
+theorem sinv_workerHandoff (s s' : Sys) (i j : Nat) (hi : SInv s) (hs : step s (.workerHandoff i j) = some s') : SInv s' := by
+  obtain ⟨gd, lo, cnt, hcnt, nodup, proc, clo, cidle, act, infl, pend, drp, ret, ex, pan, bar, st0, st1, st2, mu1, mu2⟩ := hi
+  simp only [step] at hs
+  split at hs
+  · rename_i sb hw hsb
+    have hmem := List.mem_of_getElem? hsb
+    have hnr : s.serve ≠ .returned := by
+      intro h; have := all_exited_get (ret h) hw; cases this
+    split at hs
+    · rename_i m hcb
       split at hs
-      · rename_i m hcb
+      · cases hs
+      · rename_i hc
+        cases hs
         have hncl : s.closed = false := by
           cases hcl : s.closed with
           | false => rfl
-          | true => have := cidle hcl; rw [hcb] at this; cases this
-        split at hs
-        · cases hs
-        · cases hs
-          have hb := fun x => count_busy_set x s.workers i .idle (.busy m) hw
-          have hmu := mu_set_same s.workers s.wmu i .idle (.busy m) hw rfl mu1 mu2
-          refine ⟨gd, ?_, ?_, nodup, ?_, clo, ?_, act, infl, ?_, drp, ?_, ?_, pan, bar, st0, st1, st2, hmu.1, hmu.2⟩
-          · intro x
-            have := cnt x
-            have := hb x
-            rw [loc, held, hq, hcb] at *
-            cnt_tac
-          · intro x
-            have := hcnt x
-            have := hb x
-            rw [held, hq, hcb] at *
-            cnt_tac
-          · intro x
-            have := proc x
-            have := hb x
-            cnt_tac
-          · intro h; rw [hncl] at h; cases h
-          · intro hf h2; have := (pend hf h2).2; rw [hcb] at this; cases this
-          · intro h; exact absurd h hnr
-          · intro h2; dsimp only at h2 ⊢
-            rcases mem_set_exited _ _ _ h2 with h3 | h3
-            · have := (ex h3).1
-              rw [hncl] at this; cases this
-            · cases h3
-      · cases hs
+          | true => exact absurd (Or.inl hcl) hc
+        have hq : s.workC = [] := by
+          cases hq : s.workC with
+          | nil => rfl
+          | cons a t => exact absurd (Or.inr (by rw [hq]; simp)) hc
+        have hb := fun x => count_busy_set x s.workers i .idle (.busy m) hw
+        have hf := fun x => count_flat_set subAll x s.subs j sb { sb with cb := .sent m } hsb
+        have hg := fun x => count_flat_set subCb x s.subs j sb { sb with cb := .sent m } hsb
+        have hmu := mu_set_same s.workers s.wmu i .idle (.busy m) hw rfl mu1 mu2
+        refine ⟨gd, lo, ?_, ?_, nodup, ?_, clo, ?_, act, ?_, ?_, drp, ?_, ?_, pan, bar, st0, st1, st2, hmu.1, hmu.2⟩
+        · intro x
+          have := cnt x
+          have := hb x
+          have := hf x
+          rw [subAll, hcb] at this
+          cnt_tac
+        · intro x
+          have := hcnt x
+          have := hb x
+          have := hg x
+          rw [subCb, hcb] at this
+          cnt_tac
+        · intro x
+          have := proc x
+          have := hb x
+          cnt_tac
+        · intro h; rw [hncl] at h; cases h
+        · intro hf' h2; exact forall_set j _ (infl hf' h2) (infl hf' h2 sb hmem)
+        · intro hf' h2; have := (pend hf' h2 sb hmem).2; rw [hcb] at this; cases this
+        · intro h; exact absurd h hnr
+        · intro h2; dsimp only at h2 ⊢
+          rcases mem_set_exited _ _ _ h2 with h3 | h3
+          · have := (ex h3).1
+            rw [hncl] at this; cases this
+          · cases h3
+    · cases hs
   · cases hs
 
 theorem sinv_workerHandlerDone (s s' : Sys) (i : Nat) (hi : SInv s) (hs : step s (.workerHandlerDone i) = some s') : SInv s' := by
@@ -377,11 +477,11 @@ theorem sinv_workerLock (s s' : Sys) (i : Nat) (hi : SInv s) (hs : step s (.work
       cases hs
       -- same as a pure step for everything but the mutex
       have h0 := sinv_wk_pure s i (.locking m) (.locking m) hi hw rfl rfl (by intro h; cases h) (by intro h; cases h)
-      obtain ⟨gd, cnt, hcnt, nodup, proc, clo, cidle, act, infl, pend, drp, ret, ex, pan, bar, st0, st1, st2, mu1, mu2⟩ := hi
+      obtain ⟨gd, lo, cnt, hcnt, nodup, proc, clo, cidle, act, infl, pend, drp, ret, ex, pan, bar, st0, st1, st2, mu1, mu2⟩ := hi
       have hnr : s.serve ≠ .returned := by
         intro h; have := all_exited_get (ret h) hw; cases this
       have hb := fun x => count_busy_set x s.workers i (.locking m) (.writing m) hw
-      refine ⟨gd, ?_, ?_, nodup, ?_, clo, cidle, act, infl, pend, drp, ?_, ?_, pan, bar, st0, st1, st2, ?_, ?_⟩
+      refine ⟨gd, lo, ?_, ?_, nodup, ?_, clo, cidle, act, infl, pend, drp, ?_, ?_, pan, bar, st0, st1, st2, ?_, ?_⟩
       · intro x
         have := cnt x
         have := hb x
@@ -419,12 +519,12 @@ theorem sinv_workerUnlock (s s' : Sys) (i : Nat) (hi : SInv s) (hs : step s (.wo
   split at hs
   · rename_i m hw
     cases hs
-    obtain ⟨gd, cnt, hcnt, nodup, proc, clo, cidle, act, infl, pend, drp, ret, ex, pan, bar, st0, st1, st2, mu1, mu2⟩ := hi
+    obtain ⟨gd, lo, cnt, hcnt, nodup, proc, clo, cidle, act, infl, pend, drp, ret, ex, pan, bar, st0, st1, st2, mu1, mu2⟩ := hi
     have hnr : s.serve ≠ .returned := by
       intro h; have := all_exited_get (ret h) hw; cases this
     have hb := fun x => count_busy_set x s.workers i (.written m) (.publishing m) hw
     have hown := mu1 i (.written m) hw rfl
-    refine ⟨gd, ?_, ?_, nodup, ?_, clo, cidle, act, infl, pend, drp, ?_, ?_, pan, bar, st0, st1, st2, ?_, ?_⟩
+    refine ⟨gd, lo, ?_, ?_, nodup, ?_, clo, cidle, act, infl, pend, drp, ?_, ?_, pan, bar, st0, st1, st2, ?_, ?_⟩
     · intro x
       have := cnt x
       have := hb x
@@ -454,7 +554,7 @@ theorem sinv_workerUnlock (s s' : Sys) (i : Nat) (hi : SInv s) (hs : step s (.wo
   · cases hs
 
 theorem sinv_workerReply (s s' : Sys) (i : Nat) (hi : SInv s) (hs : step s (.workerReply i) = some s') : SInv s' := by
-  obtain ⟨gd, cnt, hcnt, nodup, proc, clo, cidle, act, infl, pend, drp, ret, ex, pan, bar, st0, st1, st2, mu1, mu2⟩ := hi
+  obtain ⟨gd, lo, cnt, hcnt, nodup, proc, clo, cidle, act, infl, pend, drp, ret, ex, pan, bar, st0, st1, st2, mu1, mu2⟩ := hi
   simp only [step] at hs
   split at hs
   · rename_i m hw
@@ -463,7 +563,7 @@ theorem sinv_workerReply (s s' : Sys) (i : Nat) (hi : SInv s) (hs : step s (.wor
     cases hs
     have hb := fun x => count_busy_set x s.workers i (.publishing m) .idle hw
     have hmu := mu_set_same s.workers s.wmu i (.publishing m) .idle hw rfl mu1 mu2
-    refine ⟨gd, ?_, ?_, nodup, ?_, clo, cidle, act, infl, pend, drp, ?_, ?_, pan, bar, st0, st1, st2, hmu.1, hmu.2⟩
+    refine ⟨gd, lo, ?_, ?_, nodup, ?_, clo, cidle, act, infl, pend, drp, ?_, ?_, pan, bar, st0, st1, st2, hmu.1, hmu.2⟩
     · intro x
       have := cnt x
       have := hb x
@@ -484,7 +584,7 @@ theorem sinv_workerReply (s s' : Sys) (i : Nat) (hi : SInv s) (hs : step s (.wor
   · cases hs
 
 theorem sinv_workerExit (s s' : Sys) (i : Nat) (hi : SInv s) (hs : step s (.workerExit i) = some s') : SInv s' := by
-  obtain ⟨gd, cnt, hcnt, nodup, proc, clo, cidle, act, infl, pend, drp, ret, ex, pan, bar, st0, st1, st2, mu1, mu2⟩ := hi
+  obtain ⟨gd, lo, cnt, hcnt, nodup, proc, clo, cidle, act, infl, pend, drp, ret, ex, pan, bar, st0, st1, st2, mu1, mu2⟩ := hi
   simp only [step] at hs
   split at hs
   · rename_i hw
@@ -495,7 +595,7 @@ theorem sinv_workerExit (s s' : Sys) (i : Nat) (hi : SInv s) (hs : step s (.work
       cases hs
       have hb := fun x => count_busy_set x s.workers i .idle .exited hw
       have hmu := mu_set_same s.workers s.wmu i .idle .exited hw rfl mu1 mu2
-      refine ⟨gd, ?_, ?_, nodup, ?_, clo, cidle, act, infl, pend, drp, ?_, ?_, pan, bar, st0, st1, st2, hmu.1, hmu.2⟩
+      refine ⟨gd, lo, ?_, ?_, nodup, ?_, clo, cidle, act, infl, pend, drp, ?_, ?_, pan, bar, st0, st1, st2, hmu.1, hmu.2⟩
       · intro x
         have := cnt x
         have := hb x
@@ -514,123 +614,126 @@ theorem sinv_workerExit (s s' : Sys) (i : Nat) (hi : SInv s) (hs : step s (.work
   · cases hs
 
 
+
+
 theorem sinv_stopCall (s s' : Sys) (hi : SInv s) (hs : step s .stopCall = some s') : SInv s' := by
-  obtain ⟨gd, cnt, hcnt, nodup, proc, clo, cidle, act, infl, pend, drp, ret, ex, pan, bar, st0, st1, st2, mu1, mu2⟩ := hi
+  obtain ⟨gd, lo, cnt, hcnt, nodup, proc, clo, cidle, act, infl, pend, drp, ret, ex, pan, bar, st0, st1, st2, mu1, mu2⟩ := hi
   simp only [step] at hs
   split at hs
   · rename_i h
     cases hs
-    refine ⟨gd, cnt, hcnt, nodup, proc, clo, cidle, act, infl, pend, drp, ret, ex, pan, bar, ?_, ?_, ?_, mu1, mu2⟩
+    refine ⟨gd, lo, cnt, hcnt, nodup, proc, clo, cidle, act, infl, pend, drp, ret, ex, pan, bar, ?_, ?_, ?_, mu1, mu2⟩
     · intro _; exact Or.inr rfl
     · intro h1 h2; have := st1 h1 h2; simp [h] at this
     · intro h1; have := st2 h1; simp [h] at this
   · cases hs
 
 theorem sinv_serveGotQuit (s s' : Sys) (hi : SInv s) (hs : step s .serveGotQuit = some s') : SInv s' := by
-  obtain ⟨gd, cnt, hcnt, nodup, proc, clo, cidle, act, infl, pend, drp, ret, ex, pan, bar, st0, st1, st2, mu1, mu2⟩ := hi
+  obtain ⟨gd, lo, cnt, hcnt, nodup, proc, clo, cidle, act, infl, pend, drp, ret, ex, pan, bar, st0, st1, st2, mu1, mu2⟩ := hi
   simp only [step] at hs
   split at hs
   · rename_i h
     cases hs
-    refine ⟨gd, cnt, hcnt, nodup, proc, ?_, ?_, ?_, ?_, ?_, drp, ?_, ?_, pan, ?_, ?_, ?_, ?_, mu1, mu2⟩ <;> dsimp only <;> simp_all [rank]
+    refine ⟨gd, lo, cnt, hcnt, nodup, proc, ?_, ?_, ?_, ?_, ?_, drp, ?_, ?_, pan, ?_, ?_, ?_, ?_, mu1, mu2⟩ <;> dsimp only <;> simp_all [rank, drained, Sub.quiet, List.all_eq_true]
   · cases hs
 
 theorem sinv_drainStart (s s' : Sys) (hi : SInv s) (hs : step s .drainStart = some s') : SInv s' := by
-  obtain ⟨gd, cnt, hcnt, nodup, proc, clo, cidle, act, infl, pend, drp, ret, ex, pan, bar, st0, st1, st2, mu1, mu2⟩ := hi
+  obtain ⟨gd, lo, cnt, hcnt, nodup, proc, clo, cidle, act, infl, pend, drp, ret, ex, pan, bar, st0, st1, st2, mu1, mu2⟩ := hi
   simp only [step] at hs
   split at hs
   · rename_i h
     cases hs
-    refine ⟨gd, cnt, hcnt, nodup, proc, ?_, ?_, ?_, ?_, ?_, drp, ?_, ?_, pan, ?_, ?_, ?_, ?_, mu1, mu2⟩ <;> dsimp only <;> simp_all [rank]
+    refine ⟨gd, lo, cnt, hcnt, nodup, proc, ?_, ?_, ?_, ?_, ?_, drp, ?_, ?_, pan, ?_, ?_, ?_, ?_, mu1, mu2⟩ <;> dsimp only <;> simp_all [rank, drained, Sub.quiet, List.all_eq_true]
   · cases hs
 
 theorem sinv_drainStartIgnored (s s' : Sys) (hi : SInv s) (hs : step s .drainStartIgnored = some s') : SInv s' := by
-  obtain ⟨gd, cnt, hcnt, nodup, proc, clo, cidle, act, infl, pend, drp, ret, ex, pan, bar, st0, st1, st2, mu1, mu2⟩ := hi
+  obtain ⟨gd, lo, cnt, hcnt, nodup, proc, clo, cidle, act, infl, pend, drp, ret, ex, pan, bar, st0, st1, st2, mu1, mu2⟩ := hi
   simp only [step] at hs
   split at hs
   · rename_i h
     cases hs
-    refine ⟨gd, cnt, hcnt, nodup, proc, ?_, ?_, ?_, ?_, ?_, drp, ?_, ?_, pan, ?_, ?_, ?_, ?_, mu1, mu2⟩ <;> dsimp only <;> simp_all [rank]
+    refine ⟨gd, lo, cnt, hcnt, nodup, proc, ?_, ?_, ?_, ?_, ?_, drp, ?_, ?_, pan, ?_, ?_, ?_, ?_, mu1, mu2⟩ <;> dsimp only <;> simp_all [rank, drained, Sub.quiet, List.all_eq_true]
   · cases hs
 
 theorem sinv_flushBarrier (s s' : Sys) (hi : SInv s) (hs : step s .flushBarrier = some s') : SInv s' := by
-  obtain ⟨gd, cnt, hcnt, nodup, proc, clo, cidle, act, infl, pend, drp, ret, ex, pan, bar, st0, st1, st2, mu1, mu2⟩ := hi
+  obtain ⟨gd, lo, cnt, hcnt, nodup, proc, clo, cidle, act, infl, pend, drp, ret, ex, pan, bar, st0, st1, st2, mu1, mu2⟩ := hi
   simp only [step] at hs
   split at hs
   · rename_i h
     cases hs
-    refine ⟨gd, cnt, hcnt, nodup, proc, ?_, ?_, ?_, ?_, ?_, drp, ?_, ?_, pan, ?_, ?_, ?_, ?_, mu1, mu2⟩ <;> dsimp only <;> simp_all [rank]
+    refine ⟨gd, lo, cnt, hcnt, nodup, proc, ?_, ?_, ?_, ?_, ?_, drp, ?_, ?_, pan, ?_, ?_, ?_, ?_, mu1, mu2⟩ <;> dsimp only <;> simp_all [rank, drained, Sub.quiet, List.all_eq_true]
   · cases hs
 
 theorem sinv_barrierFires (s s' : Sys) (hi : SInv s) (hs : step s .barrierFires = some s') : SInv s' := by
-  obtain ⟨gd, cnt, hcnt, nodup, proc, clo, cidle, act, infl, pend, drp, ret, ex, pan, bar, st0, st1, st2, mu1, mu2⟩ := hi
+  obtain ⟨gd, lo, cnt, hcnt, nodup, proc, clo, cidle, act, infl, pend, drp, ret, ex, pan, bar, st0, st1, st2, mu1, mu2⟩ := hi
   simp only [step] at hs
   split at hs
   · rename_i h
     cases hs
-    refine ⟨gd, cnt, hcnt, nodup, proc, ?_, ?_, ?_, ?_, ?_, drp, ?_, ?_, pan, ?_, ?_, ?_, ?_, mu1, mu2⟩ <;> dsimp only <;> simp_all [rank]
+    refine ⟨gd, lo, cnt, hcnt, nodup, proc, ?_, ?_, ?_, ?_, ?_, drp, ?_, ?_, pan, ?_, ?_, ?_, ?_, mu1, mu2⟩ <;> dsimp only <;> simp_all [rank, drained, Sub.quiet, List.all_eq_true]
   · cases hs
 
 theorem sinv_drainFail (s s' : Sys) (hi : SInv s) (hs : step s .drainFail = some s') : SInv s' := by
-  obtain ⟨gd, cnt, hcnt, nodup, proc, clo, cidle, act, infl, pend, drp, ret, ex, pan, bar, st0, st1, st2, mu1, mu2⟩ := hi
+  obtain ⟨gd, lo, cnt, hcnt, nodup, proc, clo, cidle, act, infl, pend, drp, ret, ex, pan, bar, st0, st1, st2, mu1, mu2⟩ := hi
   simp only [step] at hs
   split at hs
   · rename_i h
     cases hs
     obtain ⟨hf, h2⟩ := h
     rcases h2 with h2 | h2 | h2 <;>
-      (refine ⟨gd, cnt, hcnt, nodup, proc, ?_, ?_, ?_, ?_, ?_, drp, ?_, ?_, pan, ?_, ?_, ?_, ?_, mu1, mu2⟩ <;> dsimp only <;> simp_all [rank])
+      (refine ⟨gd, lo, cnt, hcnt, nodup, proc, ?_, ?_, ?_, ?_, ?_, drp, ?_, ?_, pan, ?_, ?_, ?_, ?_, mu1, mu2⟩ <;> dsimp only <;> simp_all [rank, drained, Sub.quiet, List.all_eq_true])
   · cases hs
 
 theorem sinv_sendResult (s s' : Sys) (hi : SInv s) (hs : step s .sendResult = some s') : SInv s' := by
-  obtain ⟨gd, cnt, hcnt, nodup, proc, clo, cidle, act, infl, pend, drp, ret, ex, pan, bar, st0, st1, st2, mu1, mu2⟩ := hi
+  obtain ⟨gd, lo, cnt, hcnt, nodup, proc, clo, cidle, act, infl, pend, drp, ret, ex, pan, bar, st0, st1, st2, mu1, mu2⟩ := hi
   simp only [step] at hs
   split at hs
   · rename_i h
     cases hs
-    refine ⟨gd, cnt, hcnt, nodup, proc, ?_, ?_, ?_, ?_, ?_, drp, ?_, ?_, pan, ?_, ?_, ?_, ?_, mu1, mu2⟩ <;> dsimp only <;> simp_all [rank]
+    refine ⟨gd, lo, cnt, hcnt, nodup, proc, ?_, ?_, ?_, ?_, ?_, drp, ?_, ?_, pan, ?_, ?_, ?_, ?_, mu1, mu2⟩ <;> dsimp only <;> simp_all [rank, drained, Sub.quiet, List.all_eq_true]
   · cases hs
 
 theorem sinv_stopReturn (s s' : Sys) (hi : SInv s) (hs : step s .stopReturn = some s') : SInv s' := by
-  obtain ⟨gd, cnt, hcnt, nodup, proc, clo, cidle, act, infl, pend, drp, ret, ex, pan, bar, st0, st1, st2, mu1, mu2⟩ := hi
+  obtain ⟨gd, lo, cnt, hcnt, nodup, proc, clo, cidle, act, infl, pend, drp, ret, ex, pan, bar, st0, st1, st2, mu1, mu2⟩ := hi
   simp only [step] at hs
   split at hs
   · rename_i h
     cases hs
-    refine ⟨gd, cnt, hcnt, nodup, proc, clo, cidle, act, infl, pend, drp, ret, ex, pan, bar, ?_, ?_, ?_, mu1, mu2⟩
+    refine ⟨gd, lo, cnt, hcnt, nodup, proc, clo, cidle, act, infl, pend, drp, ret, ex, pan, bar, ?_, ?_, ?_, mu1, mu2⟩
     · intro h1; have := st0 h1; simp [h] at this
     · intro h1 h2; have := st1 h1 h2; simp [h] at this
     · intro _; exact Or.inr rfl
   · cases hs
 
 theorem sinv_closeWorkC (s s' : Sys) (hi : SInv s) (hs : step s .closeWorkC = some s') : SInv s' := by
-  obtain ⟨gd, cnt, hcnt, nodup, proc, clo, cidle, act, infl, pend, drp, ret, ex, pan, bar, st0, st1, st2, mu1, mu2⟩ := hi
+  obtain ⟨gd, lo, cnt, hcnt, nodup, proc, clo, cidle, act, infl, pend, drp, ret, ex, pan, bar, st0, st1, st2, mu1, mu2⟩ := hi
   simp only [step] at hs
   split at hs
   · rename_i h
     cases hs
-    refine ⟨gd, cnt, hcnt, nodup, proc, ?_, ?_, ?_, ?_, ?_, drp, ?_, ?_, pan, ?_, ?_, ?_, ?_, mu1, mu2⟩ <;> dsimp only <;> simp_all [rank]
+    refine ⟨gd, lo, cnt, hcnt, nodup, proc, ?_, ?_, ?_, ?_, ?_, drp, ?_, ?_, pan, ?_, ?_, ?_, ?_, mu1, mu2⟩ <;> dsimp only <;> simp_all [rank, drained, Sub.quiet, List.all_eq_true]
   · cases hs
 
 theorem sinv_serveReturn (s s' : Sys) (hi : SInv s) (hs : step s .serveReturn = some s') : SInv s' := by
-  obtain ⟨gd, cnt, hcnt, nodup, proc, clo, cidle, act, infl, pend, drp, ret, ex, pan, bar, st0, st1, st2, mu1, mu2⟩ := hi
+  obtain ⟨gd, lo, cnt, hcnt, nodup, proc, clo, cidle, act, infl, pend, drp, ret, ex, pan, bar, st0, st1, st2, mu1, mu2⟩ := hi
   simp only [step] at hs
   split at hs
   · rename_i h
     cases hs
-    refine ⟨gd, cnt, hcnt, nodup, proc, ?_, ?_, ?_, ?_, ?_, drp, ?_, ?_, pan, ?_, ?_, ?_, ?_, mu1, mu2⟩ <;> dsimp only <;> simp_all [rank, allExited]
+    refine ⟨gd, lo, cnt, hcnt, nodup, proc, ?_, ?_, ?_, ?_, ?_, drp, ?_, ?_, pan, ?_, ?_, ?_, ?_, mu1, mu2⟩ <;> dsimp only <;> simp_all [rank, drained, Sub.quiet, List.all_eq_true, allExited]
     exact h.2
   · cases hs
 
 theorem sinv_step (s s' : Sys) (a : Action) (hi : SInv s) (hs : step s a = some s') : SInv s' := by
   cases a with
-  | arrive m => exact sinv_arrive s s' m hi hs
+  | arrive j m => exact sinv_arrive s s' j m hi hs
   | fault => exact sinv_fault s s' hi hs
-  | deliver => exact sinv_deliver s s' hi hs
-  | cbStart => exact sinv_cbStart s s' hi hs
-  | handlerEnqueue => exact sinv_handlerEnqueue s s' hi hs
-  | callbackDone => exact sinv_callbackDone s s' hi hs
+  | deliver j => exact sinv_deliver s s' j hi hs
+  | cbStart j => exact sinv_cbStart s s' j hi hs
+  | handlerEnqueue j => exact sinv_handlerEnqueue s s' j hi hs
+  | callbackDone j => exact sinv_callbackDone s s' j hi hs
   | workerTake i => exact sinv_workerTake s s' i hi hs
+  | workerHandoff i j => exact sinv_workerHandoff s s' i j hi hs
   | workerHandlerDone i => exact sinv_workerHandlerDone s s' i hi hs
   | workerLock i => exact sinv_workerLock s s' i hi hs
   | workerWriteOk i => exact sinv_workerWriteOk s s' i hi hs
@@ -651,24 +754,29 @@ theorem sinv_step (s s' : Sys) (a : Action) (hi : SInv s) (hs : step s a = some 
   | closeWorkC => exact sinv_closeWorkC s s' hi hs
   | serveReturn => exact sinv_serveReturn s s' hi hs
 
-theorem busyList_replicate_idle (w : Nat) : busyList (List.replicate w .idle) = [] := by
-  induction w with
+theorem flat_replicate_nil {α : Type} (f : α → List Msg) (x : α) (hx : f x = []) (n : Nat) : flat f (List.replicate n x) = [] := by
+  induction n with
   | zero => rfl
-  | succ n ih => simp [List.replicate_succ, busyList, wkMsgs, ih]
+  | succ n ih => simp [List.replicate_succ, flat, hx, ih]
 
-theorem sinv_init (re : Bool) (w q : Nat) : SInv (initP true re w q) := by
-  refine ⟨rfl, ?_, ?_, ?_, ?_, ?_, ?_, ?_, ?_, ?_, ?_, ?_, ?_, rfl, ?_, ?_, ?_, ?_, ?_, ?_⟩ <;>
-    simp [initP, loc, held, rank, cbMsgs, busyList_replicate_idle]
+theorem sinv_init (re : Bool) (w q k : Nat) : SInv (initP true re false w q k) := by
+  have h1 : flat subAll (List.replicate k (⟨[], [], .idle⟩ : Sub)) = [] := flat_replicate_nil _ _ rfl k
+  have h2 : flat subCb (List.replicate k (⟨[], [], .idle⟩ : Sub)) = [] := flat_replicate_nil _ _ rfl k
+  have h3 : busyList (List.replicate w Wk.idle) = [] := flat_replicate_nil _ _ rfl w
+  refine ⟨rfl, rfl, ?_, ?_, ?_, ?_, ?_, ?_, ?_, ?_, ?_, ?_, ?_, ?_, rfl, ?_, ?_, ?_, ?_, ?_, ?_⟩ <;>
+    simp [initP, loc, held, rank, h1, h2, h3]
   intro i w0 h
   have : w0 ∈ List.replicate w Wk.idle := List.mem_of_getElem? h
   rw [(List.mem_replicate.mp this).2]; rfl
 
 
+
 /-! Reachability, parameters, monotonicity. -/
 
-def ReachableP (g re : Bool) (w q : Nat) (s : Sys) : Prop := ∃ as, run (initP g re w q) as = some s
-/-- Reachable in the model of the code as it is (guarded close, no re-locking). -/
-def Reachable (w q : Nat) (s : Sys) : Prop := ReachableP true false w q s
+def ReachableP (g re lo : Bool) (w q k : Nat) (s : Sys) : Prop := ∃ as, run (initP g re lo w q k) as = some s
+/-- Reachable in the model of the code as it is (guarded close, no re-locking, the drain waits for every
+subscription): w workers, queue length q, k subjects. -/
+def Reachable (w q k : Nat) (s : Sys) : Prop := ReachableP true false false w q k s
 
 theorem run_append (s : Sys) (as bs : List Action) :
     run s (as ++ bs) = (run s as).bind (fun s' => run s' bs) := by
@@ -680,13 +788,13 @@ theorem run_append (s : Sys) (as bs : List Action) :
     | none => simp
     | some s' => simpa using ih s'
 
-theorem reachable_run {g re : Bool} {w q : Nat} {s s' : Sys} {as : List Action} (hr : ReachableP g re w q s) (h : run s as = some s') :
-    ReachableP g re w q s' := by
+theorem reachable_run {g re lo : Bool} {w q k : Nat} {s s' : Sys} {as : List Action} (hr : ReachableP g re lo w q k s) (h : run s as = some s') :
+    ReachableP g re lo w q k s' := by
   obtain ⟨bs, hb⟩ := hr
   exact ⟨bs ++ as, by rw [run_append, hb]; simpa using h⟩
 
-theorem reachable_step {g re : Bool} {w q : Nat} {s s' : Sys} {a : Action} (hr : ReachableP g re w q s) (h : step s a = some s') :
-    ReachableP g re w q s' :=
+theorem reachable_step {g re lo : Bool} {w q k : Nat} {s s' : Sys} {a : Action} (hr : ReachableP g re lo w q k s) (h : step s a = some s') :
+    ReachableP g re lo w q k s' :=
   reachable_run (as := [a]) hr (by simp [run, h])
 
 theorem run_sinv {s s' : Sys} {as : List Action} (hi : SInv s) (h : run s as = some s') : SInv s' := by
@@ -698,29 +806,29 @@ theorem run_sinv {s s' : Sys} {as : List Action} (hi : SInv s) (h : run s as = s
     · rename_i s1 h1; exact ih (sinv_step s s1 a hi h1) h
     · cases h
 
-theorem reachable_sinv {re : Bool} {w q : Nat} {s : Sys} (hr : ReachableP true re w q s) : SInv s := by
+theorem reachable_sinv {re : Bool} {w q k : Nat} {s : Sys} (hr : ReachableP true re false w q k s) : SInv s := by
   obtain ⟨as, h⟩ := hr
-  exact run_sinv (sinv_init re w q) h
+  exact run_sinv (sinv_init re w q k) h
 
 theorem step_params {s s' : Sys} {a : Action} (hs : step s a = some s') :
-    s'.workers.length = s.workers.length ∧ s'.q = s.q ∧ s'.guarded = s.guarded ∧ s'.reentrant = s.reentrant := by
+    s'.workers.length = s.workers.length ∧ s'.q = s.q ∧ s'.guarded = s.guarded ∧ s'.reentrant = s.reentrant ∧ s'.subs.length = s.subs.length := by
   cases a <;> simp only [step] at hs <;> (repeat' split at hs) <;> cases hs <;> simp
 
 theorem run_params {s s' : Sys} {as : List Action} (h : run s as = some s') :
-    s'.workers.length = s.workers.length ∧ s'.q = s.q ∧ s'.guarded = s.guarded ∧ s'.reentrant = s.reentrant := by
+    s'.workers.length = s.workers.length ∧ s'.q = s.q ∧ s'.guarded = s.guarded ∧ s'.reentrant = s.reentrant ∧ s'.subs.length = s.subs.length := by
   induction as generalizing s with
-  | nil => simp [run] at h; subst h; exact ⟨rfl, rfl, rfl, rfl⟩
+  | nil => simp [run] at h; subst h; exact ⟨rfl, rfl, rfl, rfl, rfl⟩
   | cons a as ih =>
     simp only [run] at h
     split at h
     · rename_i s1 h1
       have h2 := step_params h1
       have h3 := ih h
-      exact ⟨h3.1.trans h2.1, h3.2.1.trans h2.2.1, h3.2.2.1.trans h2.2.2.1, h3.2.2.2.trans h2.2.2.2⟩
+      exact ⟨h3.1.trans h2.1, h3.2.1.trans h2.2.1, h3.2.2.1.trans h2.2.2.1, h3.2.2.2.1.trans h2.2.2.2.1, h3.2.2.2.2.trans h2.2.2.2.2⟩
     · cases h
 
-theorem reachable_params {g re : Bool} {w q : Nat} {s : Sys} (hr : ReachableP g re w q s) :
-    s.workers.length = w ∧ s.q = q ∧ s.guarded = g ∧ s.reentrant = re := by
+theorem reachable_params {g re lo : Bool} {w q k : Nat} {s : Sys} (hr : ReachableP g re lo w q k s) :
+    s.workers.length = w ∧ s.q = q ∧ s.guarded = g ∧ s.reentrant = re ∧ s.subs.length = k := by
   obtain ⟨as, h⟩ := hr
   have := run_params h
   simpa [initP] using this
@@ -751,19 +859,26 @@ theorem run_mono {s s' : Sys} {as : List Action} (h : run s as = some s') :
         fun m hm => h3.2.2.2.1 m (h2.2.2.2.1 m hm), fun ha => h3.2.2.2.2 (h2.2.2.2.2 ha)⟩
     · cases h
 
+
+
 /-! Progress. -/
+
+theorem not_all_get {α : Type} {P : α → Bool} {l : List α} (h : l.all P = false) :
+    ∃ (i : Nat) (x : α), l[i]? = some x ∧ P x = false := by
+  induction l with
+  | nil => simp at h
+  | cons a t ih =>
+    cases hp : P a with
+    | false => exact ⟨0, a, rfl, hp⟩
+    | true =>
+      have : t.all P = false := by simpa [List.all_cons, hp] using h
+      obtain ⟨i, x, hx, hpx⟩ := ih this
+      exact ⟨i + 1, x, by simpa using hx, hpx⟩
 
 theorem not_allExited {ws : List Wk} (h : allExited ws = false) :
     ∃ (i : Nat) (u : Wk), ws[i]? = some u ∧ u ≠ .exited := by
-  induction ws with
-  | nil => simp [allExited] at h
-  | cons w ws ih =>
-    by_cases hw : w = .exited
-    · subst hw
-      have : allExited ws = false := by simpa [allExited] using h
-      obtain ⟨i, u, hu, hne⟩ := ih this
-      exact ⟨i + 1, u, by simpa using hu, hne⟩
-    · exact ⟨0, w, rfl, hw⟩
+  obtain ⟨i, u, hu, hp⟩ := not_all_get (P := (· == Wk.exited)) h
+  exact ⟨i, u, hu, by intro he; subst he; simp at hp⟩
 
 /-- A worker that carries a request can move, or the holder of the write mutex it waits for can:
 the mutex is released on every path (without the re-locking mutation). -/
@@ -795,20 +910,19 @@ theorem worker_progress (s : Sys) (hi : SInv s) (hre : s.reentrant = false) (i :
 
 /-- A handler blocked on the full queue is unblocked by the system itself (w ≥ 1, queue still open). -/
 theorem unblock_handler (s : Sys) (hi : SInv s) (hre : s.reentrant = false) (hw : 1 ≤ s.workers.length)
-    (m : Msg) (hcb : s.cb = .sending m) (hncl : s.closed = false) :
+    (j : Nat) (sb : Sub) (hsb : s.subs[j]? = some sb) (m : Msg) (hcb : sb.cb = .sending m) (hncl : s.closed = false) :
     ∃ a, a.isSystem = true ∧ (step s a).isSome = true := by
   obtain ⟨w0, hw0⟩ : ∃ w0, s.workers[0]? = some w0 := by
     cases hws : s.workers with
     | nil => simp [hws] at hw
     | cons a t => exact ⟨a, rfl⟩
   by_cases hroom : s.workC.length < s.q
-  · exact ⟨.handlerEnqueue, rfl, by simp [step, hcb, hncl, hroom]⟩
+  · exact ⟨.handlerEnqueue j, rfl, by simp [step, hsb, hcb, hncl, hroom]⟩
   · by_cases hidle : w0 = .idle
     · subst hidle
-      refine ⟨.workerTake 0, rfl, ?_⟩
       cases hq : s.workC with
-      | nil => simp [step, hw0, hq, hcb, hncl]
-      | cons x rest => simp [step, hw0, hq]
+      | nil => exact ⟨.workerHandoff 0 j, rfl, by simp [step, hw0, hsb, hq, hcb, hncl]⟩
+      | cons x rest => exact ⟨.workerTake 0, rfl, by simp [step, hw0, hq]⟩
     · by_cases hex : w0 = .exited
       · subst hex
         have := (hi.ex (List.mem_of_getElem? hw0)).1
@@ -829,22 +943,30 @@ theorem progress (s : Sys) (hi : SInv s) (hre : s.reentrant = false) (hw : 1 ≤
     exact ⟨.serveGotQuit, rfl, by simp [step, hsv, hq]⟩
   | gotQuit => exact ⟨.drainStart, rfl, by simp [step, hsv]⟩
   | unsubbed =>
-    cases hin : s.inflight with
-    | nil => exact ⟨.flushBarrier, rfl, by simp [step, hsv, hin]⟩
-    | cons m rest => exact ⟨.deliver, rfl, by simp [step, hin]⟩
+    cases hall : s.subs.all (fun sb => sb.inflight.isEmpty) with
+    | true => exact ⟨.flushBarrier, rfl, by simp [step, hsv, hall]⟩
+    | false =>
+      obtain ⟨j, sb, hsb, hp⟩ := not_all_get hall
+      cases hin : sb.inflight with
+      | nil => simp [hin] at hp
+      | cons m rest => exact ⟨.deliver j, rfl, by simp [step, hsb, hin]⟩
   | barrierWait =>
     have hbar : s.barrier = true := hi.bar.mpr hsv
     have hncl : s.closed = false := by
       cases hc : s.closed with
       | false => rfl
       | true => have := hclo.mp hc; rw [hsv] at this; simp [rank] at this
-    cases hcb : s.cb with
-    | idle =>
-      cases hp : s.pending with
-      | nil => exact ⟨.barrierFires, rfl, by simp [step, hsv, hbar, hp, hcb]⟩
-      | cons m rest => exact ⟨.cbStart, rfl, by simp [step, hcb, hp, hncl]⟩
-    | sent m => exact ⟨.callbackDone, rfl, by simp [step, hcb]⟩
-    | sending m => exact unblock_handler s hi hre hw m hcb hncl
+    cases hall : s.subs.all Sub.quiet with
+    | true => exact ⟨.barrierFires, rfl, by simp [step, hsv, hbar, drained, hi.lo, hall]⟩
+    | false =>
+      obtain ⟨j, sb, hsb, hp⟩ := not_all_get hall
+      cases hcb : sb.cb with
+      | idle =>
+        cases hpd : sb.pending with
+        | nil => simp [Sub.quiet, hcb, hpd] at hp
+        | cons m rest => exact ⟨.cbStart j, rfl, by simp [step, hsb, hcb, hpd, hncl]⟩
+      | sent m => exact ⟨.callbackDone j, rfl, by simp [step, hsb, hcb]⟩
+      | sending m => exact unblock_handler s hi hre hw j sb hsb m hcb hncl
   | barrierDone =>
     have := hi.st1 (by rw [hsv]; simp [rank]) (by rw [hsv]; simp [rank])
     exact ⟨.sendResult, rfl, by simp [step, hsv, this]⟩
@@ -853,10 +975,14 @@ theorem progress (s : Sys) (hi : SInv s) (hre : s.reentrant = false) (hw : 1 ≤
       cases hc : s.closed with
       | false => rfl
       | true => have := hclo.mp hc; rw [hsv] at this; simp [rank] at this
-    cases hcb : s.cb with
-    | idle => exact ⟨.closeWorkC, rfl, by simp [step, hsv, hcb]⟩
-    | sent m => exact ⟨.callbackDone, rfl, by simp [step, hcb]⟩
-    | sending m => exact unblock_handler s hi hre hw m hcb hncl
+    cases hall : s.subs.all (fun sb => sb.cb == .idle) with
+    | true => exact ⟨.closeWorkC, rfl, by simp [step, hsv, hall]⟩
+    | false =>
+      obtain ⟨j, sb, hsb, hp⟩ := not_all_get hall
+      cases hcb : sb.cb with
+      | idle => simp [hcb] at hp
+      | sent m => exact ⟨.callbackDone j, rfl, by simp [step, hsb, hcb]⟩
+      | sending m => exact unblock_handler s hi hre hw j sb hsb m hcb hncl
   | closedQ =>
     have hcl : s.closed = true := hclo.mpr (by rw [hsv]; simp [rank])
     cases hall : allExited s.workers with
@@ -883,58 +1009,87 @@ theorem progress (s : Sys) (hi : SInv s) (hre : s.reentrant = false) (hw : 1 ≤
 def wkW : Wk → Nat
   | .idle => 1 | .busy _ => 7 | .locking _ => 6 | .writing _ => 5 | .overflow _ => 4
   | .written _ => 3 | .publishing _ => 2 | .exited => 0
-def wsW : List Wk → Nat | [] => 0 | w :: ws => wkW w + wsW ws
 def cbW : Cb → Nat | .idle => 0 | .sending _ => 9 | .sent _ => 1
+def subW (sb : Sub) : Nat := 11 * sb.inflight.length + 10 * sb.pending.length + cbW sb.cb
+def sumW {α : Type} (f : α → Nat) : List α → Nat | [] => 0 | x :: xs => f x + sumW f xs
+def wsW (ws : List Wk) : Nat := sumW wkW ws
 def stopW : StopPc → Nat
   | .notCalled => 4 | .atQuit => 3 | .waitResult => 2 | .gotResult => 1 | .returned => 0
 
 /-- The measure: every request still on its way weighs more the further it is from its reply,
 every goroutine weighs the number of steps it has left; the one possible fault weighs 1. -/
 def mu (s : Sys) : Nat :=
-  11 * s.inflight.length + 10 * s.pending.length + cbW s.cb + 7 * s.workC.length + wsW s.workers
+  sumW subW s.subs + 7 * s.workC.length + wsW s.workers
     + (7 - rank s.serve) + stopW s.stop + (if s.faulty then 0 else 1)
 
-theorem wsW_set (ws : List Wk) (i : Nat) (u v : Wk) (h : ws[i]? = some u) :
-    wsW (ws.set i v) + wkW u = wsW ws + wkW v := by
+theorem sumW_set {α : Type} (f : α → Nat) (ws : List α) (i : Nat) (u v : α) (h : ws[i]? = some u) :
+    sumW f (ws.set i v) + f u = sumW f ws + f v := by
   induction ws generalizing i with
   | nil => simp at h
   | cons w ws ih =>
     cases i with
-    | zero => simp at h; subst h; simp [wsW]; omega
-    | succ i => simp at h; have := ih i h; simp [wsW]; omega
+    | zero => simp at h; subst h; simp [sumW]; omega
+    | succ i => simp at h; have := ih i h; simp [sumW]; omega
+
+theorem wsW_set (ws : List Wk) (i : Nat) (u v : Wk) (h : ws[i]? = some u) :
+    wsW (ws.set i v) + wkW u = wsW ws + wkW v := sumW_set wkW ws i u v h
 
 
-theorem mu_decreases {s s' : Sys} {a : Action} (hs : step s a = some s') (ha : ∀ m, a ≠ .arrive m) :
+theorem mu_decreases {s s' : Sys} {a : Action} (hs : step s a = some s') (ha : ∀ j m, a ≠ .arrive j m) :
     mu s' < mu s := by
   cases a with
-  | arrive m => exact absurd rfl (ha m)
+  | arrive j m => exact absurd rfl (ha j m)
   | fault =>
     simp only [step] at hs; split at hs
     · cases hs
     · rename_i h; cases hs; simp [mu, h]
-  | deliver =>
+  | deliver j =>
     simp only [step] at hs; split at hs
-    · rename_i m rest hm; cases hs; simp [mu, hm]; omega
-    · cases hs
-  | cbStart =>
-    simp only [step] at hs; split at hs
-    · rename_i m rest hcb hm
+    · rename_i sb hsb
       split at hs
-      · cases hs; simp [mu, hm, hcb, cbW]
-      · cases hs; simp [mu, hm, hcb, cbW]; omega
+      · rename_i m rest hm; cases hs
+        have := sumW_set subW s.subs j sb { sb with inflight := rest, pending := sb.pending ++ [m] } hsb
+        simp [mu, subW, hm] at this ⊢; omega
+      · cases hs
     · cases hs
-  | handlerEnqueue =>
+  | cbStart j =>
     simp only [step] at hs; split at hs
-    · rename_i m hcb
+    · rename_i sb hsb
       split at hs
-      · cases hs; simp [mu, hcb, cbW]
-      · split at hs
-        · cases hs; simp [mu, hcb, cbW]; omega
+      · rename_i m rest hcb hm
+        split at hs
         · cases hs
+          have := sumW_set subW s.subs j sb { sb with pending := rest } hsb
+          simp [mu, subW, hm, hcb, cbW] at this ⊢; omega
+        · cases hs
+          have := sumW_set subW s.subs j sb { sb with cb := .sending m, pending := rest } hsb
+          simp [mu, subW, hm, hcb, cbW] at this ⊢; omega
+      · cases hs
     · cases hs
-  | callbackDone =>
+  | handlerEnqueue j =>
     simp only [step] at hs; split at hs
-    · rename_i m hcb; cases hs; simp [mu, hcb, cbW]
+    · rename_i sb hsb
+      split at hs
+      · rename_i m hcb
+        split at hs
+        · cases hs
+          have := sumW_set subW s.subs j sb { sb with cb := .idle } hsb
+          simp [mu, subW, hcb, cbW] at this ⊢; omega
+        · split at hs
+          · cases hs
+            have := sumW_set subW s.subs j sb { sb with cb := .sent m } hsb
+            simp [mu, subW, hcb, cbW] at this ⊢; omega
+          · cases hs
+      · cases hs
+    · cases hs
+  | callbackDone j =>
+    simp only [step] at hs; split at hs
+    · rename_i sb hsb
+      split at hs
+      · rename_i m hcb; cases hs
+        have := sumW_set subW s.subs j sb { sb with cb := .idle } hsb
+        simp [mu, subW, hcb, cbW] at this ⊢; omega
+      · cases hs
     · cases hs
   | workerTake i =>
     simp only [step] at hs; split at hs
@@ -943,14 +1098,20 @@ theorem mu_decreases {s s' : Sys} {a : Action} (hs : step s a = some s') (ha : 
       · rename_i m rest hq; cases hs
         have := wsW_set s.workers i .idle (.busy m) hw
         simp [mu, hq, wkW] at this ⊢; omega
-      · split at hs
-        · rename_i m hcb
-          split at hs
-          · cases hs
-          · cases hs
-            have := wsW_set s.workers i .idle (.busy m) hw
-            simp [mu, hcb, cbW, wkW] at this ⊢; omega
+      · cases hs
+    · cases hs
+  | workerHandoff i j =>
+    simp only [step] at hs; split at hs
+    · rename_i sb hw hsb
+      split at hs
+      · rename_i m hcb
+        split at hs
         · cases hs
+        · cases hs
+          have := wsW_set s.workers i .idle (.busy m) hw
+          have := sumW_set subW s.subs j sb { sb with cb := .sent m } hsb
+          simp [mu, subW, hcb, cbW, wkW] at *; omega
+      · cases hs
     · cases hs
   | workerHandlerDone i =>
     simp only [step] at hs; split at hs
@@ -1054,6 +1215,8 @@ theorem mu_decreases {s s' : Sys} {a : Action} (hs : step s a = some s') (ha : 
     simp only [step] at hs; split at hs
     · rename_i h; cases hs; simp [mu, h.1, rank]
     · cases hs
+
+
 
 
 end FV.NS
